@@ -53,7 +53,7 @@ def calls_from_dump(dumpfile, var='call', limit=None, key=None):
     return out
 
 
-def execute(env: Env, calls, hashseed=0, shards=16, script='run_calls.py', extra=None, tag='t', envs=None, per=500):
+def execute(env: Env, calls, hashseed=0, shards=16, script='run_calls.py', extra=None, tag='t', envs=None, per=500, shard_key=None):
     """Run the calls against the real spil in `shards` parallel interpreters; returns trace path."""
     n = len(calls)
     if n == 0:
@@ -65,7 +65,12 @@ def execute(env: Env, calls, hashseed=0, shards=16, script='run_calls.py', extra
     for s in range(shards):
         cf_ = os.path.join(env.work, '%s.calls.%d' % (tag, s))
         with open(cf_, 'w') as f:
-            for c in calls[s::shards]:
+            if shard_key is None:
+                mine = calls[s::shards]
+            else:   # calls with the same key are executed by the same interpreter (history-dependent defects need company)
+                import zlib
+                mine = [c for c in calls if zlib.crc32(shard_key(c).encode()) % shards == s]
+            for c in mine:
                 f.write(json.dumps(c) + '\n')
         files.append(cf_)
 
